@@ -5,6 +5,8 @@ import (
 	"net"
 	"runtime"
 	"strings"
+	"syscall"
+	"time"
 
 	"mosn.io/api"
 )
@@ -41,13 +43,13 @@ func (c *StubConn) Close(t api.ConnectionCloseType, e api.ConnectionEvent) error
 	}
 	return nil
 }
-func (c *StubConn) SetTransferEventListener(func() bool)                      {}
-func (c *StubConn) AddConnectionEventListener(api.ConnectionEventListener)    {}
-func (c *StubConn) AddBytesReadListener(func(uint64))                         {}
-func (c *StubConn) AddBytesSentListener(func(uint64))                         {}
-func (c *StubConn) SetReadDisable(bool)                                       {}
-func (c *StubConn) Connect() error                                            { return nil }
-func (c *StubConn) SetMark(uint32)                                            {}
+func (c *StubConn) SetTransferEventListener(func() bool)                   {}
+func (c *StubConn) AddConnectionEventListener(api.ConnectionEventListener) {}
+func (c *StubConn) AddBytesReadListener(func(uint64))                      {}
+func (c *StubConn) AddBytesSentListener(func(uint64))                      {}
+func (c *StubConn) SetReadDisable(bool)                                    {}
+func (c *StubConn) Connect() error                                         { return nil }
+func (c *StubConn) SetMark(uint32)                                         {}
 
 // Runaway is the panic value raised by CountBuf when the code under test keeps reading the buffer
 // far more often than any terminating parse of the input could need.
@@ -124,4 +126,15 @@ func AllocBytes(f func()) uint64 {
 	f()
 	runtime.ReadMemStats(&b)
 	return b.TotalAlloc - a.TotalAlloc
+}
+
+// CPUTime returns the CPU time (user+system) consumed by the process so far. Around a call in a
+// single-worker process it meters the work done by the call - not wall-clock time: waiting and
+// other processes do not count.
+func CPUTime() time.Duration {
+	var ru syscall.Rusage
+	if syscall.Getrusage(syscall.RUSAGE_SELF, &ru) != nil {
+		return 0
+	}
+	return time.Duration(ru.Utime.Nano() + ru.Stime.Nano())
 }
